@@ -1151,6 +1151,20 @@ func (f *Field) Range(name string, op pql.Token, predicate int64) (*Row, error) 
 		return nil, nil
 	}
 
+	// A predicate beyond the values the bit depth can hold, on the side that
+	// every stored value satisfies, selects all not-null columns.
+	if bsig.coversAll(op, predicate) {
+		r := NewRow()
+		for _, frag := range view.allFragments() {
+			other, err := frag.notNull()
+			if err != nil {
+				return nil, err
+			}
+			r = r.Union(other)
+		}
+		return r, nil
+	}
+
 	baseValue, outOfRange := bsig.baseValue(op, predicate)
 	if outOfRange {
 		return NewRow(), nil
@@ -1550,6 +1564,25 @@ func (b *bsiGroup) baseValue(op pql.Token, value int64) (baseValue int64, outOfR
 		baseValue = int64(value - b.Base)
 	}
 	return baseValue, false
+}
+
+// coversAll reports whether every value representable with the current bit
+// depth satisfies "x <op> value", so that the range query selects exactly the
+// not-null columns. baseValue clamps such predicates to the bit depth range,
+// which changes their meaning (x < 100 must not become x < 7).
+func (b *bsiGroup) coversAll(op pql.Token, value int64) bool {
+	min, max := b.bitDepthMin(), b.bitDepthMax()
+	switch op {
+	case pql.LT:
+		return value > max
+	case pql.LTE:
+		return value >= max
+	case pql.GT:
+		return value < min
+	case pql.GTE:
+		return value <= min
+	}
+	return false
 }
 
 // baseValueBetween adjusts the min/max value to align with the range for Field.
